@@ -304,11 +304,12 @@ pub fn run(report: &Report, thorough: bool) -> Evidence {
     }
     // S2: words with every 0..3 leading x 0..3 trailing string over {' " (}
     if crate::par::part_enabled("S2") {
-        let words = ["k", "ami", "sesh", "a", "kk", "bhalo", "1", "ka`", "tumi", "se", "na", "ki", "ar", "k:a"];
+        // ("hasi" and "o" are, typed through Probhat, Bengali emoji names: emoji candidates carry the wrapping too)
+        let words = ["k", "hasi", "ami", "sesh", "a", "o", "kk", "bhalo", "1", "ka`", "tumi", "se", "na", "ki", "ar", "k:a"];
         let q: Vec<char> = "'\"(".chars().collect();
         let leads = strings_upto(&q, 3);
         let mut prefixes = vec![];
-        let nwords = if thorough { words.len() } else { 6 };
+        let nwords = if thorough { words.len() } else { 7 };
         for w in &words[..nwords] {
             for l in &leads {
                 prefixes.push(format!("{}{}", l, w));
